@@ -184,7 +184,9 @@ func TestC07EndToEnd(t *testing.T) {
 						return
 					}
 					o := Obs{Invoked: hit == 1, After: publishedState(lb)}
-					o.Failed = o.Invoked && (aborted || status >= 500)
+					// whether the exchange failed is the scripted backend's ground truth (5xx, unreachable, response
+					// aborted mid-body), not what the client was shown: the breaker must count what happened
+					o.Failed = o.Invoked && fn.FailedAt(before)
 					o.Err = !o.Invoked
 					if v := mon.Step(time.Now(), o); v != "" {
 						viol = fmt.Sprintf("event #%d (status %d, backend hits %d, aborted %v): %s", i, status, hit, aborted, v)
